@@ -364,6 +364,16 @@ def body_vars(S, loop, part):
     mv.configure_machine_var("credits", persist=True, expire_secs=expire)
     mv.set_machine_var("credits", value)
     mv.set_machine_var("plain", 5, persist=True)
+    # a later set (same or new value) restarts the life time: expiry counts from the LAST set
+    t_last = t_save
+    if S.bool("set_again_later"):
+        dt = S.int("second_set_after", 1, 5000)
+        value2 = value if S.bool("same_value_again") else S.int("value2", -50, 50)
+        m.clock.now = t_save + dt
+        mv.set_machine_var("credits", value2)
+        value = value2
+        t_last = t_save + dt
+        S.assume(t_load >= t_last)
     # next boot
     m2 = M()
     mv2 = MachineVariables(m2)
@@ -379,7 +389,8 @@ def body_vars(S, loop, part):
     except Exception:  # pylint: disable=broad-except
         pass            # platform()/version variables after the loop need a full machine; the loop itself has run
     got = mv2.get_machine_var("credits")
-    expired = expire is not None and t_load > t_save + expire
+    expired = expire is not None and t_load > t_last + expire
+    t_save = t_last
     if expired and got is not None:
         raise Violation("expired-variable-is-not-reloaded", "MachineVariables.load_machine_vars", "saved at %s with expiry %s s, reloaded at %s: value %r came back" % (t_save, expire, t_load, got))
     if not expired and (got != value or type(got) is not type(value)):
